@@ -70,19 +70,30 @@ fn refuse(size: usize) {
     // are switched off so that capturing the backtrace may allocate)
     let _ = CAP.try_with(|c| c.set(0));
     let _ = WINDOW_CAP.try_with(|c| c.set(0));
-    let bt = std::backtrace::Backtrace::force_capture().to_string();
+    // resolve frame by frame and stop at the first pilota / generated-code frame: the frames
+    // below it (executor, thread start, libc) are never symbolised
     let mut site = String::from("?");
-    for line in bt.lines() {
-        let l = line.trim();
-        if l.starts_with("at ") {
-            continue;
+    let mut n = 0;
+    backtrace::trace(|frame| {
+        n += 1;
+        if n > 64 {
+            return false;
         }
-        let name = l.splitn(2, ": ").nth(1).unwrap_or(l);
-        if (name.contains("pilota::") || name.contains("corpus")) && !name.contains("pilota_sim::alloc") {
-            site = name.to_string();
-            break;
-        }
-    }
+        let mut found = false;
+        backtrace::resolve_frame(frame, |sym| {
+            if found {
+                return;
+            }
+            if let Some(name) = sym.name() {
+                let name = format!("{:#}", name);
+                if (name.contains("pilota::") || name.contains("corpus")) && !name.contains("pilota_sim::alloc") {
+                    site = name;
+                    found = true;
+                }
+            }
+        });
+        !found
+    });
     let msg = format!("ALLOC-SITE {}\n", site);
     unsafe {
         libc::write(2, msg.as_ptr() as *const libc::c_void, msg.len());
